@@ -291,6 +291,24 @@ pub fn run(ctx: &Ctx) -> Result<Run, String> {
     out.transitions += out_m.transitions;
     out.generated += out_m.generated;
     out.stats.merge(out_m.stats);
+    {
+        let cc = client_cases();
+        let st = par::sweep_cases(&cc, ctx.threads, |c, st| {
+            st.case(c, true, "client-assert");
+            st.findings_from(eval_client(c));
+        });
+        out.transitions += st.evaluations;
+        out.stats.count("client_level_ceremonies", st.evaluations);
+        out.stats.merge(st);
+    }
+    {
+        use super::inst::{self, IOp};
+        let alphabet = [IOp::Get { who: 0, prf: false, silent: false }, IOp::Get { who: 0, prf: true, silent: false }, IOp::Get { who: 0, prf: false, silent: true }, IOp::Get { who: 1, prf: false, silent: false }, IOp::Get { who: 4, prf: true, silent: false }, IOp::Make { rk: true, prf: true }, IOp::Cancelled(1), IOp::TraitGet { who: 0 }];
+        let st = inst::sweep(&alphabet, ctx.tier.pick(3, 4), &[0, 1], ctx.threads, "instance");
+        out.transitions += st.evaluations;
+        out.stats.count("instance_differential_histories", st.evaluations);
+        out.stats.merge(st);
+    }
     let mut run = Run::from_stats(
         "model_checking",
         "level-synchronous explicit-state BFS over the real get_assertion/make_credential: 49 start vectors (two credentials with each of 7 start counters incl. 0, 2^31-1, 2^31, 2^32-2, 2^32-1 and none, one counter-less credential), actions assert(cred i, PRF on/off, with consent / silent: up=uv=false and nothing reported) and register(counter on/off), states deduplicated per start vector on the counter vector; run on the contract store and (one level less deep) on Arc<Mutex<MemoryStore>>; every transition is a distinct non-trivial case (a real ceremony on a rebuilt store)",
@@ -305,7 +323,115 @@ pub fn run(ctx: &Ctx) -> Result<Run, String> {
     Ok(run)
 }
 
+// ------------------------------------------------------------------------------------------
+// the same invariants for ceremonies driven through the WebAuthn client (which may call the
+// authenticator more than once, or not at all): one client ceremony advances the stored counter
+// by at most one, and a successful one reports exactly the stored value
+
+#[derive(Clone, Debug, Serialize, Deserialize, PartialEq, Eq, Hash)]
+pub struct ClientCase {
+    pub start: Option<u32>,
+    /// stored PRF secrets: 0 none, 1 both
+    pub secrets: u8,
+    /// authenticator with hmac-secret capability
+    pub capable: bool,
+    /// 0 no extension, 1 prf eval, 2 credProps only
+    pub ext: u8,
+    pub listed: bool,
+    pub memory: bool,
+}
+pub fn client_cases() -> Vec<ClientCase> {
+    let mut v = vec![];
+    for start in STARTS {
+        for secrets in 0..2u8 {
+            for capable in [false, true] {
+                for ext in 0..3u8 {
+                    for listed in [false, true] {
+                        for memory in [false, true] {
+                            if memory && !listed {
+                                continue; // the in-memory store answers list-less lookups with nothing (C05)
+                            }
+                            v.push(ClientCase { start, secrets, capable, ext, listed, memory });
+                        }
+                    }
+                }
+            }
+        }
+    }
+    v
+}
+pub fn eval_client(c: &ClientCase) -> Vec<Finding> {
+    use passkey_types::webauthn;
+    let case = json!({"client": c});
+    let mut fs = vec![];
+    let mut bad = |kind: &str, d: String| fs.push(Finding::new(format!("op=client-assert/kind={kind}"), d, case.clone()));
+    let item = seeded(&Seed { n: 1, rp: RP.into(), handle: Some(vec![1]), counter: c.start, hmac: (c.secrets == 1).then_some(true) });
+    let log = Log::new();
+    let cfg = super::common::AuthCfg { counter: true, id_len: None, hmac: if c.capable { 2 } else { 0 }, hmac_mc: false };
+    let ext = match c.ext {
+        0 => None,
+        1 => Some(webauthn::AuthenticationExtensionsClientInputs { cred_props: None, prf: Some(webauthn::AuthenticationExtensionsPrfInputs { eval: Some(webauthn::AuthenticationExtensionsPrfValues { first: vec![1, 2, 3].into(), second: None }), eval_by_credential: None }), prf_already_hashed: None }),
+        _ => Some(webauthn::AuthenticationExtensionsClientInputs { cred_props: Some(true), prf: None, prf_already_hashed: None }),
+    };
+    let opts = request_options(Auth { allow: c.listed.then(|| vec![cred_id(1)]), extensions: ext, ..Default::default() });
+    let origin = url::Url::parse("https://example.com").unwrap();
+    macro_rules! go {
+        ($store:expr, $recs:expr) => {{
+            let mut client = passkey_client::Client::new(super::common::mk_auth(Logging { inner: $store, log: log.clone() }, ScriptedUv::consenting(log.clone()), &cfg));
+            let r = par::catch(|| block_on(client.authenticate(&origin, opts, passkey_client::DefaultClientData)));
+            let recs: Vec<Rec> = $recs;
+            (r, recs)
+        }};
+    }
+    let (r, after) = if c.memory {
+        let m: passkey_authenticator::MemoryStore = [(item.credential_id.to_vec(), item.clone())].into_iter().collect();
+        let s = std::sync::Arc::new(tokio::sync::Mutex::new(m));
+        go!(s.clone(), s.recs())
+    } else {
+        let s = Shared::new(RefStore::with(vec![item.clone()]));
+        go!(s.clone(), s.recs())
+    };
+    let stored = after.first().and_then(|r| r.counter);
+    let updates = log.snapshot().iter().filter(|e| matches!(e, Event::Update { result: Ok(()), .. })).count();
+    let next = c.start.map(|n| n.saturating_add(1));
+    match r {
+        Err(p) => bad("panic", p),
+        Ok(res) => {
+            if updates > 1 {
+                bad("counter-written-more-than-once", format!("one client ceremony made {updates} accepted counter write-backs (stored {:?} → {stored:?})", c.start));
+            }
+            if stored != c.start && stored != next {
+                bad("advanced-by-more-than-one", format!("one client ceremony took the stored counter from {:?} to {stored:?}", c.start));
+            }
+            if let Ok(cred) = res {
+                let ad = cred.response.authenticator_data.to_vec();
+                let reported = ad.get(33..37).map(|b| u32::from_be_bytes([b[0], b[1], b[2], b[3]])).unwrap_or(0);
+                match c.start {
+                    None => {
+                        if reported != 0 || stored.is_some() {
+                            bad("counterless-rewritten", format!("counter-less credential: reported {reported}, store now {stored:?}"));
+                        }
+                    }
+                    Some(n) => {
+                        if Some(reported) != next || stored != next {
+                            bad("not-previous-plus-one", format!("stored counter was {n}, the client ceremony reports {reported}, store now holds {stored:?}"));
+                        }
+                    }
+                }
+            }
+        }
+    }
+    fs
+}
+
 pub fn replay(_ctx: &Ctx, case: &Value) -> Result<Vec<Finding>, String> {
+    if let Some(c) = case.get("client") {
+        let c: ClientCase = serde_json::from_value(c.clone()).map_err(|e| format!("bad C08 client case: {e}"))?;
+        return Ok(eval_client(&c));
+    }
+    if let Some(fs) = super::inst::replay(case, "instance") {
+        return Ok(fs);
+    }
     let c: Case = serde_json::from_value(case.clone()).map_err(|e| format!("bad C08 case: {e}"))?;
     let store = St8::new(c.start_a, c.start_b, c.memory);
     let mut fs = vec![];
